@@ -8,6 +8,8 @@
 import GoSecs.Lemmas.Framing
 import GoSecs.Lemmas.HsmsGen
 import GoSecs.Lemmas.FramingGen
+import GoSecs.Lemmas.ReadFrameGen
+import GoSecs.Lemmas.ReadFrameModel
 import GoSecs.Gen.Consts
 import GoSecs.Gen.Funcs
 
@@ -386,6 +388,90 @@ set_option maxRecDepth 8192 in
 /-- The first bytes of a frame do start the clock: e.g. two bytes of a length prefix, then silence. -/
 theorem inframe_gap_example :
     (run 80 16777215 .init [⟨1000000, [0, 0]⟩, ⟨81, [0, 10]⟩]).obs = ⟨[], some .timeout, [0, 0], true, 0⟩ := by
+  decide
+
+/-! ## Timing, tied to the source: which deadline each `Read` of `readN` / `readFrame` runs under
+
+  `readN` and `readFrame` are regenerated from hsmsss/transport_recv.go on every run (effect mode with the I/O extension
+  of tools/go2lean: `conn.SetReadDeadline`, `conn.Read`, the clock, `rt.Timers()`, `allocFrame` are trace entries; what
+  they return comes from a script of environment answers `Io.Ans`, rendered as the oracle list by `Io.enc`).  The
+  sequential reader `Framing.readN` / `Framing.readFrame` (Lemmas/ReadFrameGen.lean) consumes the same script. -/
+
+/-- **`readN`, regenerated, is the sequential `readN`**: result, buffer contents, the `*started` flag handed back, the
+    trace (`SetReadDeadline(zero)` / clock + `SetReadDeadline(clock+T8)` / `Read(room)` per iteration) and the unused
+    answers — for every script, buffer, `*started`, T8 and fuel for which the sequential reader returns. -/
+theorem readN_gen (t8 : Int) (fuel : Nat) (script : List Io.Ans) (buf : Bytes) (started : Bool) (rest : List Go.Val)
+    (out : RdOut) (h : readN t8 fuel script buf started = some out) :
+    Gen.hsmsss_readN buf t8 started fuel (Io.enc script ++ rest) =
+      some (out.err, out.buf, out.started, render out.evs, Io.enc out.rest ++ rest) :=
+  Framing.readN_gen t8 fuel script buf started rest out h
+
+/-- **`readFrame`, regenerated, is the sequential `readFrame`**: live T8 → `readN` of the 4-byte prefix → `lengthGate`
+    (10 ≤ L ≤ cap, BEFORE the allocation) → `allocFrame(L)` → `readN` of header+body with the SAME `started` flag. -/
+theorem readFrame_gen (t : Gen.hsmsss_transport) (fuel : Nat) (script : List Io.Ans) (rest : List Go.Val) (out : FrOut)
+    (h : readFrame fuel script = some out) :
+    Gen.hsmsss_transport_readFrame t fuel (Io.enc script ++ rest) =
+      some (out.frame, out.err, renderF out.evs, Io.enc out.rest ++ rest) :=
+  Framing.readFrame_gen t fuel script rest out h
+
+/-- more fuel never changes a result (so "for some fuel" is "for every larger fuel") -/
+theorem readN_fuel_mono (t8 : Int) (fuel : Nat) (script : List Io.Ans) (buf : Bytes) (started : Bool) (out : RdOut)
+    (h : readN t8 fuel script buf started = some out) (k : Nat) : readN t8 (fuel + k) script buf started = some out :=
+  Framing.readN_mono t8 fuel script buf started out h k
+
+/-- **T8 is armed from the first byte of a frame on — a statement about the source.**  For every script of Read
+    results (any segmentation, zero-byte reads, errors, clock readings), the trace of the regenerated `readFrame` is
+    the rendering of an event sequence that obeys `T8Rule false`: each `SetReadDeadline` is the idle wait
+    (`time.Time{}`) iff no byte of this frame has been read so far, and `clock + T8` otherwise — over both `readN`
+    calls, so also when the stall falls exactly after the 4-byte length prefix. -/
+theorem readFrame_t8_rule (t : Gen.hsmsss_transport) (fuel : Nat) (script : List Io.Ans) (rest : List Go.Val)
+    (out : FrOut) (h : readFrame fuel script = some out) :
+    (∃ r, Gen.hsmsss_transport_readFrame t fuel (Io.enc script ++ rest) = some (out.frame, out.err, renderF out.evs, r)) ∧
+    T8Rule false (rdEvs out.evs) :=
+  ⟨⟨_, Framing.readFrame_gen t fuel script rest out h⟩, Framing.readFrame_rule fuel script out h⟩
+
+/-- `readN` alone: it obeys the rule from the `*started` it is given and hands back exactly "a byte has been read". -/
+theorem readN_t8_rule (t8 : Int) (fuel : Nat) (script : List Io.Ans) (buf : Bytes) (s0 : Bool) (out : RdOut)
+    (h : readN t8 fuel script buf s0 = some out) :
+    T8Rule s0 out.evs ∧ out.started = startedAfter s0 out.evs :=
+  Framing.readN_rule t8 fuel script buf s0 out h
+
+/-- The rule read off at one `SetReadDeadline`: after a Read that stored at least one byte of the frame, it arms a
+    deadline — never the idle wait; and that deadline is the clock reading taken for it plus T8 (`armOf_deadline`). -/
+theorem t8_armed_once_a_byte_was_read (s : Bool) (pre post : List RdEv) (d : Dl) (h : T8Rule s (pre ++ .arm d :: post))
+    (room : Nat) (got : Bytes) (hin : RdEv.read room got ∈ pre) (hne : got ≠ []) : ∃ dd, d = .t8 dd :=
+  Framing.T8Rule_armed s pre post d h room got hin hne
+
+theorem t8_deadline_is_clock_plus_t8 (t8 : Int) (script : List Io.Ans) (dl : Dl) (s1 : List Io.Ans)
+    (h : armOf t8 true script = some (dl, s1)) : ∃ t, script = .clock t :: s1 ∧ dl = .t8 (t + t8) :=
+  Framing.armOf_deadline t8 script dl s1 h
+
+/-- … and before the first byte of the frame it is the idle wait, however many empty Reads came before. -/
+theorem idle_wait_before_first_byte (pre post : List RdEv) (d : Dl) (h : T8Rule false (pre ++ .arm d :: post))
+    (hnone : ∀ room got, RdEv.read room got ∈ pre → got = []) : d = .idle :=
+  Framing.T8Rule_idle pre post d h hnone
+
+/-- **The deadline decisions of the source are the stream model's per-read decisions.**  For every script of Read results
+    in which the allocator hands out a buffer of the requested length (the production `makeFrame`): walking through the
+    `readN` events of the regenerated `readFrame` with the model's receiver state (`Framing.feed` consumes what each Read
+    stored), every `SetReadDeadline` is the idle wait exactly when the model's state is not `started` — exactly when the
+    model's `stepEvent` does not apply T8 to the next event (`idle_gap_never_times_out`), and arms clock+T8 exactly when it
+    does (`inframe_gap_drops`). -/
+theorem readFrame_decisions_are_the_models (t : Gen.hsmsss_transport) (fuel : Nat) (script : List Io.Ans)
+    (rest : List Go.Val) (out : FrOut) (h : readFrame fuel script = some out)
+    (halloc : ∀ n len, FrEv.alloc n len ∈ out.evs → len = n) :
+    (∃ r, Gen.hsmsss_transport_readFrame t fuel (Io.enc script ++ rest) = some (out.frame, out.err, renderF out.evs, r)) ∧
+    ModelRule maxMsgLen .init (rdEvs out.evs) :=
+  ⟨⟨_, Framing.readFrame_gen t fuel script rest out h⟩, Framing.readFrame_model fuel script out h halloc⟩
+
+/-- The stall exactly after the length prefix, concretely: the prefix arrives in one Read (idle wait), the allocator
+    hands out 10 bytes, then nothing more arrives — the second `readN`'s only Read runs under clock+T8 (= 7+80) and its
+    timeout is what `readFrame` returns. -/
+theorem stall_after_prefix_example :
+    (readFrame 3 [.timers { Gen.hsms_TimerConfig.zero with T8 := 80 }, .err none, .read [0, 0, 0, 10] none,
+                  .alloc (List.replicate 10 0), .clock 7, .err none, .read [] (some "i/o timeout")]).map
+        (fun o => (o.err, rdEvs o.evs)) =
+      some (some "i/o timeout", [.arm .idle, .read 4 [0, 0, 0, 10], .arm (.t8 87), .read 10 []]) := by
   decide
 
 /-! ## Length gate -/
